@@ -4,11 +4,12 @@ CONSTANTS
   Ident = FALSE
   Dev = {}
   JitClasses = {"zero"}
-  Plan = "three"
+  Plan = "fixed"
   Kinds = {"good", "wrongid"}
   MaxFlips = 1
-  AllowCancel = FALSE
+  MaxReplies = 2
+  AllowCancel = TRUE
   AllowDestroy = TRUE
   PortReuse = TRUE
-INVARIANTS WTwoSocks
+INVARIANTS ICompleteOnce INoTxAfterDone ITxBound ISlots IArmed IMatch IDelivered IFailover IQuiescent IDestroyed IMemSafe INas IDuration
 CHECK_DEADLOCK FALSE
